@@ -188,7 +188,11 @@ def check(case):
                                     env[nm] = float(pv[pp][tj]); found = True
                             if not found:
                                 raise HarnessError("dependency %s of %s not found" % (nm, name))
-                        v = float(got[tj]) + dt * f * expr.evaluate(fn, env)
+                        try:
+                            v = float(got[tj]) + dt * f * expr.evaluate(fn, env)
+                        except expr.Ambiguous:
+                            feats.add("ambiguous-branch-skipped")
+                            continue
                         src = "derivative-step"
                         stages += 2
                 elif ov is not None and t[ti] >= scen_start:
@@ -214,7 +218,7 @@ def check(case):
                                 return float(pv[pp][ti])
                         raise HarnessError("aggregated quantity %s not found" % nm)
 
-                    num = den = 0.0
+                    num = den = absnum = 0.0
                     for other in m.pops:
                         if inter is None:
                             W = 1.0
@@ -224,7 +228,13 @@ def check(case):
                             W = datainterp.series_value(went, t[ti]) if went else 0.0
                         z = val(other, w) if w else 1.0
                         num += W * z * val(other, q)
+                        absnum += abs(W * z * val(other, q))
                         den += W * z
+                    agg_scale = abs(f) * (absnum / abs(den) if (fname.endswith("AVG") and den != 0) else absnum)
+                    if fname.endswith("AVG") and 0 < abs(den) < 1e-280:
+                        # weights in the subnormal range carry only a few significant bits: the quotient is not determined to 1e-9
+                        feats.add("subnormal-weights-skipped")
+                        continue
                     v = num if fname.endswith("SUM") else (num / den if den != 0 else num)
                     v *= f
                     src = "aggregation"
@@ -249,7 +259,11 @@ def check(case):
                                 env[nm] = float(pv[pp][ti]); found = True
                         if not found:
                             raise HarnessError("dependency %s of %s not found" % (nm, name))
-                    v = f * expr.evaluate(fn, env)
+                    try:
+                        v = f * expr.evaluate(fn, env)
+                    except expr.Ambiguous:
+                        feats.add("ambiguous-branch-skipped")
+                        continue
                     src = "function"
                     stages += 1
                     if f != 1:
@@ -268,7 +282,8 @@ def check(case):
                     stages += 1
                     feats.add("clipped-max")
                 g = float(got[ti])
-                ok = (math.isnan(v) and math.isnan(g)) or v == g or (math.isfinite(v) and math.isfinite(g) and abs(v - g) <= 1e-9 * max(1.0, abs(v), abs(g)))
+                scale_extra = agg_scale if (agg and src == "aggregation") else 0.0  # a mean of terms of both signs is only exact relative to the sum of their magnitudes
+                ok = (math.isnan(v) and math.isnan(g)) or v == g or (math.isfinite(v) and math.isfinite(g) and abs(v - g) <= 1e-9 * max(1.0, abs(v), abs(g), scale_extra if math.isfinite(scale_extra) else 0.0))
                 if not ok:
                     evalkind = "precompute" if getattr(par, "_precompute", False) else ("dynamic" if getattr(par, "_is_dynamic", False) else "post")
                     raise Violation(ID, "%s/%s%s" % (kind, src, ("/" + evalkind) if (fn and src == "scenario") else ""), "parameter %s/%s index %d (t=%r): atomica %r, precedence chain gives %r (source %s, factor %r, limits [%r,%r], function %r, scenario %r)" % (pop.name, name, ti, t[ti], g, v, src, f, lo, hi, fn, ov))
